@@ -292,7 +292,7 @@ mut("C08", "rewrite-unescapes-path", H,
 mut("C08", "modify-response-strips-server-header", "fingerproxy.go",
     "			ErrorHandler:  proxyErrorHandler,\n", "			ErrorHandler:  proxyErrorHandler,\n			ModifyResponse: func(res *http.Response) error { res.Header.Del(\"Server\"); return nil },\n")
 mut("C08", "transport-4k-response-header-limit", "fingerproxy.go",
-    "			Transport: http.DefaultTransport.(*http.Transport).Clone(),\n", "			Transport: func() *http.Transport {\n				t := http.DefaultTransport.(*http.Transport).Clone()\n				t.MaxResponseHeaderBytes = 4 << 10\n				return t\n			}(),\n")
+    "	transport.DisableCompression = true\n", "	transport.DisableCompression = true\n	transport.MaxResponseHeaderBytes = 4 << 10\n")
 mut("C08", "h2-cookie-crumbs-joined-without-space", "pkg/http2/server.go",
     "strings.Join(cookies, \"; \")", "strings.Join(cookies, \";\")")
 mut("C08", "h2-response-trailers-dropped", "pkg/http2/server.go",
